@@ -9,8 +9,8 @@ package model
 // (error messages that name the ranges, the CLI/theme documentation), not from the
 // validation code paths.
 //
-// Membership is three-valued: In (must be accepted and stored unchanged), Out (must be
-// rejected), Unspecified (a lexical variant the documentation does not settle, e.g. "+5",
+// Membership is three-valued: DomIn (must be accepted and stored unchanged), DomOut (must be
+// rejected), DomUnspecified (a lexical variant the documentation does not settle, e.g. "+5",
 // "05", "1e-1", "#rrggbbaa", "TRUE": never judged, only counted).
 
 import (
@@ -20,63 +20,63 @@ import (
 	"strings"
 )
 
-type Verdict int
+type DomVerdict int
 
 const (
-	Unspecified Verdict = iota
-	In
-	Out
+	DomUnspecified DomVerdict = iota
+	DomIn
+	DomOut
 )
 
-func (v Verdict) String() string { return [...]string{"unspecified", "in", "out"}[v] }
+func (v DomVerdict) String() string { return [...]string{"unspecified", "in", "out"}[v] }
 
-type Kind int
+type DomKind int
 
 const (
-	KFloat01 Kind = iota
-	KInt          // integer in [Min, Max]; Max < 0 = unbounded
-	KBool
-	KEnum // case-insensitive member of Values
-	KColor
-	KThemeColor // named or hex (theme overrides)
-	KThemeID
-	KAnyInt // any integer (pad): non-negative In, negative Unspecified
+	DomKFloat01 DomKind = iota
+	DomKInt          // integer in [Min, Max]; Max < 0 = unbounded
+	DomKBool
+	DomKEnum // case-insensitive member of Values
+	DomKColor
+	DomKThemeColor // named or hex (theme overrides)
+	DomKThemeID
+	DomKAnyInt // any integer (pad): non-negative DomIn, negative DomUnspecified
 )
 
 type Domain struct {
 	Keyword  string
-	Kind     Kind
+	Kind     DomKind
 	Min, Max int
 	Values   []string
 	// KeywordValued: the compiled value may differ from the input in letter case.
 	KeywordValued bool
 	// NotJudged: values outside Values that the documentation does not rule out for this
 	// position (e.g. an object shape name used as an arrowhead shape; the empty shape,
-	// which means "default"): Unspecified instead of Out.
+	// which means "default"): DomUnspecified instead of DomOut.
 	NotJudged []string
 	Doc       string // where the domain is stated
 }
 
-var Shapes = []string{"rectangle", "square", "page", "parallelogram", "document", "cylinder", "queue", "package", "step",
+var DomShapes = []string{"rectangle", "square", "page", "parallelogram", "document", "cylinder", "queue", "package", "step",
 	"callout", "stored_data", "person", "diamond", "oval", "circle", "hexagon", "cloud", "text", "code", "class", "sql_table",
 	"image", "sequence_diagram", "hierarchy", "c4-person"}
 
-// ArrowheadShapes: the user-facing arrowhead shape names (filled/unfilled variants are
+// DomArrowheadShapes: the user-facing arrowhead shape names (filled/unfilled variants are
 // selected with style.filled, they are not shape names).
-var ArrowheadShapes = []string{"none", "arrow", "triangle", "diamond", "circle", "box", "cross", "cf-one", "cf-many", "cf-one-required", "cf-many-required"}
+var DomArrowheadShapes = []string{"none", "arrow", "triangle", "diamond", "circle", "box", "cross", "cf-one", "cf-many", "cf-one-required", "cf-many-required"}
 
-var FillPatterns = []string{"none", "dots", "lines", "grain", "paper"}
-var TextTransforms = []string{"none", "uppercase", "lowercase", "capitalize"}
-var Directions = []string{"up", "down", "right", "left"}
-var Fonts = []string{"default", "mono"}
+var DomFillPatterns = []string{"none", "dots", "lines", "grain", "paper"}
+var DomTextTransforms = []string{"none", "uppercase", "lowercase", "capitalize"}
+var DomDirections = []string{"up", "down", "right", "left"}
+var DomFonts = []string{"default", "mono"}
 
-// ThemeIDs as listed by `d2 themes` / the theme catalog documentation.
-var ThemeIDs = []int{0, 1, 3, 4, 5, 6, 7, 8, 100, 101, 102, 103, 104, 105, 200, 201, 300, 301, 302, 303}
+// DomThemeIDs as listed by `d2 themes` / the theme catalog documentation.
+var DomThemeIDs = []int{0, 1, 3, 4, 5, 6, 7, 8, 100, 101, 102, 103, 104, 105, 200, 201, 300, 301, 302, 303}
 
-var ThemeCodes = []string{"N1", "N2", "N3", "N4", "N5", "N6", "N7", "B1", "B2", "B3", "B4", "B5", "B6", "AA2", "AA4", "AA5", "AB4", "AB5"}
+var DomThemeCodes = []string{"N1", "N2", "N3", "N4", "N5", "N6", "N7", "B1", "B2", "B3", "B4", "B5", "B6", "AA2", "AA4", "AA5", "AB4", "AB5"}
 
-// NamedColors: the CSS named colours.
-var NamedColors = strings.Fields(`aliceblue antiquewhite aqua aquamarine azure beige bisque black blanchedalmond blue blueviolet brown
+// DomNamedColors: the CSS named colours.
+var DomNamedColors = strings.Fields(`aliceblue antiquewhite aqua aquamarine azure beige bisque black blanchedalmond blue blueviolet brown
 burlywood cadetblue chartreuse chocolate coral cornflowerblue cornsilk crimson cyan darkblue darkcyan darkgoldenrod darkgray darkgreen
 darkgrey darkkhaki darkmagenta darkolivegreen darkorange darkorchid darkred darksalmon darkseagreen darkslateblue darkslategray
 darkslategrey darkturquoise darkviolet deeppink deepskyblue dimgray dimgrey dodgerblue firebrick floralwhite forestgreen fuchsia
@@ -90,73 +90,73 @@ rosybrown royalblue saddlebrown salmon sandybrown seagreen seashell sienna silve
 springgreen steelblue tan teal thistle tomato turquoise violet wheat white whitesmoke yellow yellowgreen`)
 
 // Style keywords (valid under `style.` of objects, connections and arrowheads).
-var StyleDomains = []Domain{
-	{Keyword: "opacity", Kind: KFloat01, Doc: `expected "opacity" to be a number between 0.0 and 1.0`},
-	{Keyword: "stroke", Kind: KColor, Doc: `valid named color ("orange"), a hex code ("#f0ff3a"), or a gradient ("linear-gradient(red, blue)")`},
-	{Keyword: "fill", Kind: KColor, Doc: "same as stroke"},
-	{Keyword: "font-color", Kind: KColor, Doc: "same as stroke"},
-	{Keyword: "fill-pattern", Kind: KEnum, Values: FillPatterns, KeywordValued: true, Doc: `expected "fill-pattern" to be one of: none, dots, lines, grain, paper`},
-	{Keyword: "stroke-width", Kind: KInt, Min: 0, Max: 15, Doc: `a number between 0 and 15`},
-	{Keyword: "stroke-dash", Kind: KInt, Min: 0, Max: 10, Doc: `a number between 0 and 10`},
-	{Keyword: "border-radius", Kind: KInt, Min: 0, Max: -1, Doc: `a number greater or equal to 0`},
-	{Keyword: "font-size", Kind: KInt, Min: 8, Max: 100, Doc: `a number between 8 and 100`},
-	{Keyword: "font", Kind: KEnum, Values: Fonts, KeywordValued: true, Doc: `is not a valid font in our system`},
-	{Keyword: "text-transform", Kind: KEnum, Values: TextTransforms, KeywordValued: true, Doc: `expected "text-transform" to be one of (none, uppercase, lowercase, capitalize)`},
-	{Keyword: "shadow", Kind: KBool, Doc: "true or false"},
-	{Keyword: "3d", Kind: KBool, Doc: "true or false"},
-	{Keyword: "multiple", Kind: KBool, Doc: "true or false"},
-	{Keyword: "animated", Kind: KBool, Doc: "true or false"},
-	{Keyword: "bold", Kind: KBool, Doc: "true or false"},
-	{Keyword: "italic", Kind: KBool, Doc: "true or false"},
-	{Keyword: "underline", Kind: KBool, Doc: "true or false"},
-	{Keyword: "filled", Kind: KBool, Doc: "true or false"},
-	{Keyword: "double-border", Kind: KBool, Doc: "true or false"},
+var DomStyle = []Domain{
+	{Keyword: "opacity", Kind: DomKFloat01, Doc: `expected "opacity" to be a number between 0.0 and 1.0`},
+	{Keyword: "stroke", Kind: DomKColor, Doc: `valid named color ("orange"), a hex code ("#f0ff3a"), or a gradient ("linear-gradient(red, blue)")`},
+	{Keyword: "fill", Kind: DomKColor, Doc: "same as stroke"},
+	{Keyword: "font-color", Kind: DomKColor, Doc: "same as stroke"},
+	{Keyword: "fill-pattern", Kind: DomKEnum, Values: DomFillPatterns, KeywordValued: true, Doc: `expected "fill-pattern" to be one of: none, dots, lines, grain, paper`},
+	{Keyword: "stroke-width", Kind: DomKInt, Min: 0, Max: 15, Doc: `a number between 0 and 15`},
+	{Keyword: "stroke-dash", Kind: DomKInt, Min: 0, Max: 10, Doc: `a number between 0 and 10`},
+	{Keyword: "border-radius", Kind: DomKInt, Min: 0, Max: -1, Doc: `a number greater or equal to 0`},
+	{Keyword: "font-size", Kind: DomKInt, Min: 8, Max: 100, Doc: `a number between 8 and 100`},
+	{Keyword: "font", Kind: DomKEnum, Values: DomFonts, KeywordValued: true, Doc: `is not a valid font in our system`},
+	{Keyword: "text-transform", Kind: DomKEnum, Values: DomTextTransforms, KeywordValued: true, Doc: `expected "text-transform" to be one of (none, uppercase, lowercase, capitalize)`},
+	{Keyword: "shadow", Kind: DomKBool, Doc: "true or false"},
+	{Keyword: "3d", Kind: DomKBool, Doc: "true or false"},
+	{Keyword: "multiple", Kind: DomKBool, Doc: "true or false"},
+	{Keyword: "animated", Kind: DomKBool, Doc: "true or false"},
+	{Keyword: "bold", Kind: DomKBool, Doc: "true or false"},
+	{Keyword: "italic", Kind: DomKBool, Doc: "true or false"},
+	{Keyword: "underline", Kind: DomKBool, Doc: "true or false"},
+	{Keyword: "filled", Kind: DomKBool, Doc: "true or false"},
+	{Keyword: "double-border", Kind: DomKBool, Doc: "true or false"},
 }
 
 // Reserved attributes of objects.
-var ObjectDomains = []Domain{
-	{Keyword: "shape", Kind: KEnum, Values: Shapes, KeywordValued: true, NotJudged: []string{""}, Doc: "known shapes"},
-	{Keyword: "direction", Kind: KEnum, Values: Directions, KeywordValued: true, Doc: "direction must be one of up, down, right, left"},
-	{Keyword: "width", Kind: KInt, Min: 0, Max: -1, Doc: "non-negative integer sizes"},
-	{Keyword: "height", Kind: KInt, Min: 0, Max: -1, Doc: "non-negative integer sizes"},
-	{Keyword: "top", Kind: KInt, Min: 0, Max: -1, Doc: "top must be a non-negative integer"},
-	{Keyword: "left", Kind: KInt, Min: 0, Max: -1, Doc: "left must be a non-negative integer"},
-	{Keyword: "grid-rows", Kind: KInt, Min: 1, Max: -1, Doc: "grid-rows must be a positive integer"},
-	{Keyword: "grid-columns", Kind: KInt, Min: 1, Max: -1, Doc: "grid-columns must be a positive integer"},
-	{Keyword: "grid-gap", Kind: KInt, Min: 0, Max: -1, Doc: "grid-gap must be a non-negative integer"},
-	{Keyword: "vertical-gap", Kind: KInt, Min: 0, Max: -1, Doc: "vertical-gap must be a non-negative integer"},
-	{Keyword: "horizontal-gap", Kind: KInt, Min: 0, Max: -1, Doc: "horizontal-gap must be a non-negative integer"},
+var DomObject = []Domain{
+	{Keyword: "shape", Kind: DomKEnum, Values: DomShapes, KeywordValued: true, NotJudged: []string{""}, Doc: "known shapes"},
+	{Keyword: "direction", Kind: DomKEnum, Values: DomDirections, KeywordValued: true, Doc: "direction must be one of up, down, right, left"},
+	{Keyword: "width", Kind: DomKInt, Min: 0, Max: -1, Doc: "non-negative integer sizes"},
+	{Keyword: "height", Kind: DomKInt, Min: 0, Max: -1, Doc: "non-negative integer sizes"},
+	{Keyword: "top", Kind: DomKInt, Min: 0, Max: -1, Doc: "top must be a non-negative integer"},
+	{Keyword: "left", Kind: DomKInt, Min: 0, Max: -1, Doc: "left must be a non-negative integer"},
+	{Keyword: "grid-rows", Kind: DomKInt, Min: 1, Max: -1, Doc: "grid-rows must be a positive integer"},
+	{Keyword: "grid-columns", Kind: DomKInt, Min: 1, Max: -1, Doc: "grid-columns must be a positive integer"},
+	{Keyword: "grid-gap", Kind: DomKInt, Min: 0, Max: -1, Doc: "grid-gap must be a non-negative integer"},
+	{Keyword: "vertical-gap", Kind: DomKInt, Min: 0, Max: -1, Doc: "vertical-gap must be a non-negative integer"},
+	{Keyword: "horizontal-gap", Kind: DomKInt, Min: 0, Max: -1, Doc: "horizontal-gap must be a non-negative integer"},
 }
 
 // Arrowhead attributes.
-var ArrowheadDomains = []Domain{
-	{Keyword: "shape", Kind: KEnum, Values: ArrowheadShapes, KeywordValued: true, NotJudged: append([]string{""}, Shapes...), Doc: "arrowhead shapes"},
+var DomArrowhead = []Domain{
+	{Keyword: "shape", Kind: DomKEnum, Values: DomArrowheadShapes, KeywordValued: true, NotJudged: append([]string{""}, DomShapes...), Doc: "arrowhead shapes"},
 }
 
 // d2-config entries.
-var ConfigDomains = []Domain{
-	{Keyword: "theme-id", Kind: KThemeID, Doc: "is not a valid theme ID"},
-	{Keyword: "dark-theme-id", Kind: KThemeID, Doc: "is not a valid theme ID"},
-	{Keyword: "pad", Kind: KAnyInt, Doc: `expected an integer for "pad"`},
-	{Keyword: "sketch", Kind: KBool, Doc: `expected a boolean for "sketch"`},
-	{Keyword: "center", Kind: KBool, Doc: `expected a boolean for "center"`},
+var DomConfig = []Domain{
+	{Keyword: "theme-id", Kind: DomKThemeID, Doc: "is not a valid theme ID"},
+	{Keyword: "dark-theme-id", Kind: DomKThemeID, Doc: "is not a valid theme ID"},
+	{Keyword: "pad", Kind: DomKAnyInt, Doc: `expected an integer for "pad"`},
+	{Keyword: "sketch", Kind: DomKBool, Doc: `expected a boolean for "sketch"`},
+	{Keyword: "center", Kind: DomKBool, Doc: `expected a boolean for "center"`},
 }
 
-// ThemeOverrideDomain is the domain of every theme-overrides / dark-theme-overrides code.
-var ThemeOverrideDomain = Domain{Keyword: "theme-override", Kind: KThemeColor, Doc: `expected "N1" to be a valid named color ("orange") or a hex code ("#f0ff3a")`}
+// DomThemeOverride is the domain of every theme-overrides / dark-theme-overrides code.
+var DomThemeOverride = Domain{Keyword: "theme-override", Kind: DomKThemeColor, Doc: `expected "N1" to be a valid named color ("orange") or a hex code ("#f0ff3a")`}
 
 var (
-	reCanonInt   = regexp.MustCompile(`^(0|[1-9][0-9]*)$`)
-	reCanonDec   = regexp.MustCompile(`^-?((0|[1-9][0-9]*)(\.[0-9]+)?|\.[0-9]+)$`)
-	reExpDec     = regexp.MustCompile(`^[+-]?([0-9]+(\.[0-9]*)?|\.[0-9]+)[eE][+-]?[0-9]+$`)
-	reNumericish = regexp.MustCompile(`^[+-]?(0[xXbBoO][0-9a-fA-F_.pP+-]+|[0-9][0-9_]*(\.[0-9_]*)?([eE][+-]?[0-9]+)?|\.[0-9]+([eE][+-]?[0-9]+)?)$`)
-	reHex        = regexp.MustCompile(`^#([0-9a-fA-F]{3}|[0-9a-fA-F]{6})$`)
-	reHexAlpha   = regexp.MustCompile(`^#([0-9a-fA-F]{4}|[0-9a-fA-F]{8})$`)
-	reSimpleGrad = regexp.MustCompile(`^(linear|radial)-gradient\(([^(),]+)(,[^(),]+)+\)$`)
-	reFunc       = regexp.MustCompile(`(?i)^(rgb|rgba|hsl|hsla|hwb|lab|lch|oklab|oklch|color)\(`)
+	domReCanonInt   = regexp.MustCompile(`^(0|[1-9][0-9]*)$`)
+	domReCanonDec   = regexp.MustCompile(`^-?((0|[1-9][0-9]*)(\.[0-9]+)?|\.[0-9]+)$`)
+	domReExpDec     = regexp.MustCompile(`^[+-]?([0-9]+(\.[0-9]*)?|\.[0-9]+)[eE][+-]?[0-9]+$`)
+	domReNumericish = regexp.MustCompile(`^[+-]?(0[xXbBoO][0-9a-fA-F_.pP+-]+|[0-9][0-9_]*(\.[0-9_]*)?([eE][+-]?[0-9]+)?|\.[0-9]+([eE][+-]?[0-9]+)?)$`)
+	domReHex        = regexp.MustCompile(`^#([0-9a-fA-F]{3}|[0-9a-fA-F]{6})$`)
+	domReHexAlpha   = regexp.MustCompile(`^#([0-9a-fA-F]{4}|[0-9a-fA-F]{8})$`)
+	domReSimpleGrad = regexp.MustCompile(`^(linear|radial)-gradient\(([^(),]+)(,[^(),]+)+\)$`)
+	domReFunc       = regexp.MustCompile(`(?i)^(rgb|rgba|hsl|hsla|hwb|lab|lch|oklab|oklch|color)\(`)
 )
 
-func numericish(s string) bool {
+func domNumericish(s string) bool {
 	t := strings.TrimSpace(s)
 	if t == "" {
 		return false
@@ -166,12 +166,12 @@ func numericish(s string) bool {
 			return true
 		}
 	}
-	return reNumericish.MatchString(t)
+	return domReNumericish.MatchString(t)
 }
 
-func isNamed(s string) bool {
+func domIsNamed(s string) bool {
 	l := strings.ToLower(s)
-	for _, n := range NamedColors {
+	for _, n := range DomNamedColors {
 		if n == l {
 			return true
 		}
@@ -180,136 +180,136 @@ func isNamed(s string) bool {
 }
 
 // Judge says whether value lies in the domain.
-func (d Domain) Judge(value string) Verdict {
+func (d Domain) Judge(value string) DomVerdict {
 	switch d.Kind {
-	case KFloat01:
-		if reCanonDec.MatchString(value) {
+	case DomKFloat01:
+		if domReCanonDec.MatchString(value) {
 			f, err := strconv.ParseFloat(value, 64)
 			if err != nil {
-				return Unspecified
+				return DomUnspecified
 			}
 			if f == 0 && strings.HasPrefix(value, "-") {
-				return Unspecified // -0
+				return DomUnspecified // -0
 			}
 			if f >= 0 && f <= 1 {
-				return In
+				return DomIn
 			}
-			return Out
+			return DomOut
 		}
-		if reExpDec.MatchString(value) {
+		if domReExpDec.MatchString(value) {
 			f, err := strconv.ParseFloat(value, 64)
 			if err == nil && !math.IsNaN(f) && (f < 0 || f > 1) {
-				return Out
+				return DomOut
 			}
-			return Unspecified
+			return DomUnspecified
 		}
-		if numericish(value) {
-			return Unspecified
+		if domNumericish(value) {
+			return DomUnspecified
 		}
-		return Out
-	case KInt, KAnyInt, KThemeID:
+		return DomOut
+	case DomKInt, DomKAnyInt, DomKThemeID:
 		neg := strings.HasPrefix(value, "-")
 		abs := strings.TrimPrefix(value, "-")
-		if reCanonInt.MatchString(abs) {
+		if domReCanonInt.MatchString(abs) {
 			n, err := strconv.Atoi(abs)
 			tooBig := err != nil
 			if neg && n == 0 && !tooBig {
-				return Unspecified // -0
+				return DomUnspecified // -0
 			}
 			switch d.Kind {
-			case KAnyInt:
+			case DomKAnyInt:
 				if tooBig {
-					return Unspecified
+					return DomUnspecified
 				}
 				if neg {
-					return Unspecified
+					return DomUnspecified
 				}
-				return In
-			case KThemeID:
+				return DomIn
+			case DomKThemeID:
 				if neg || tooBig {
-					return Out
+					return DomOut
 				}
-				for _, id := range ThemeIDs {
+				for _, id := range DomThemeIDs {
 					if id == n {
-						return In
+						return DomIn
 					}
 				}
-				return Out
+				return DomOut
 			}
 			if neg {
 				if d.Min >= 0 {
-					return Out
+					return DomOut
 				}
 				n = -n
 			}
 			if tooBig {
 				if d.Max >= 0 {
-					return Out
+					return DomOut
 				}
-				return Unspecified // unbounded domain, value beyond machine integers
+				return DomUnspecified // unbounded domain, value beyond machine integers
 			}
 			if n < d.Min || (d.Max >= 0 && n > d.Max) {
-				return Out
+				return DomOut
 			}
-			return In
+			return DomIn
 		}
-		if reCanonDec.MatchString(value) && d.Kind == KInt {
+		if domReCanonDec.MatchString(value) && d.Kind == DomKInt {
 			// a decimal fraction: out when no reading puts it inside the range
 			f, _ := strconv.ParseFloat(value, 64)
 			if f < float64(d.Min) || (d.Max >= 0 && f > float64(d.Max)) {
-				return Out
+				return DomOut
 			}
-			return Unspecified
+			return DomUnspecified
 		}
-		if numericish(value) {
-			return Unspecified
+		if domNumericish(value) {
+			return DomUnspecified
 		}
-		return Out
-	case KBool:
+		return DomOut
+	case DomKBool:
 		if value == "true" || value == "false" {
-			return In
+			return DomIn
 		}
 		switch strings.ToLower(value) {
 		case "true", "false", "t", "f", "1", "0":
-			return Unspecified
+			return DomUnspecified
 		}
-		return Out
-	case KEnum:
+		return DomOut
+	case DomKEnum:
 		for _, v := range d.Values {
 			if strings.EqualFold(v, value) {
-				return In
+				return DomIn
 			}
 		}
 		for _, v := range d.NotJudged {
 			if strings.EqualFold(v, value) {
-				return Unspecified
+				return DomUnspecified
 			}
 		}
-		return Out
-	case KColor, KThemeColor:
+		return DomOut
+	case DomKColor, DomKThemeColor:
 		switch {
-		case isNamed(value), reHex.MatchString(value):
-			return In
-		case reHexAlpha.MatchString(value), reFunc.MatchString(value):
-			return Unspecified
+		case domIsNamed(value), domReHex.MatchString(value):
+			return DomIn
+		case domReHexAlpha.MatchString(value), domReFunc.MatchString(value):
+			return DomUnspecified
 		case strings.EqualFold(value, "transparent"), strings.EqualFold(value, "currentcolor"):
-			return Unspecified
+			return DomUnspecified
 		}
-		for _, c := range ThemeCodes {
+		for _, c := range DomThemeCodes {
 			if c == value {
-				return Unspecified // theme colour codes are usable as colours in styles
+				return DomUnspecified // theme colour codes are usable as colours in styles
 			}
 		}
 		if strings.Contains(strings.ToLower(value), "gradient") {
-			if d.Kind == KThemeColor {
-				return Unspecified
+			if d.Kind == DomKThemeColor {
+				return DomUnspecified
 			}
-			if m := reSimpleGrad.FindStringSubmatch(value); m != nil {
+			if m := domReSimpleGrad.FindStringSubmatch(value); m != nil {
 				inner := value[strings.IndexByte(value, '(')+1 : len(value)-1]
 				allOK, anyBad := true, false
 				for _, stop := range strings.Split(inner, ",") {
 					stop = strings.TrimSpace(stop)
-					if isNamed(stop) || reHex.MatchString(stop) {
+					if domIsNamed(stop) || domReHex.MatchString(stop) {
 						continue
 					}
 					allOK = false
@@ -318,19 +318,19 @@ func (d Domain) Judge(value string) Verdict {
 					}
 				}
 				if allOK {
-					return In
+					return DomIn
 				}
 				if anyBad {
-					return Out
+					return DomOut
 				}
-				return Unspecified
+				return DomUnspecified
 			}
 			if strings.Count(value, "(") != strings.Count(value, ")") || !strings.Contains(value, "(") {
-				return Out
+				return DomOut
 			}
-			return Unspecified
+			return DomUnspecified
 		}
-		return Out
+		return DomOut
 	}
-	return Unspecified
+	return DomUnspecified
 }
